@@ -13,11 +13,21 @@ use h263_rs::H263State;
 use serde_json::{json, Map, Value};
 use std::io::Read;
 
-/// Drain a reader bit by bit; returns the remaining bits.
+/// Drain a reader bit by bit; returns the remaining bits. A panic inside the reader ends the drain
+/// and appends 64 alternating bits, so that every comparison made on the result fails.
 pub fn drain_bits<R: Read>(r: &mut H263Reader<R>) -> Vec<bool> {
     let mut out = Vec::new();
-    while let Ok(b) = r.read_bits::<u8>(1) {
-        out.push(b == 1);
+    loop {
+        match crate::runner::guard(|| r.read_bits::<u8>(1)) {
+            Ok(Ok(b)) => out.push(b == 1),
+            Ok(Err(_)) => break,
+            Err(_) => {
+                for i in 0..64 {
+                    out.push(i % 2 == 0);
+                }
+                break;
+            }
+        }
         if out.len() > 1 << 22 {
             break;
         }
